@@ -120,9 +120,11 @@ def run(chk):
     if s1 != want:
         chk.violation(r_es, "writers:seq", "ESMRY header arrays are written as %s; the format is %s" % (s1, want), w1["file"], w1["l"])
     for w in (w1, w2):
-        v = [show(x) for x in walk(w["body"]) if x["k"] in ("Decl",) and "vect_name" in show(x)]
-        okv = any('"V' in s_ for s_ in v)
-        fl = [c for c in walk(w["body"]) if c["k"] == "MCall" and c.get("m") == "write" and "vect_name" in show(c["a"][0])]
+        vd = [v_ for x in walk(w["body"]) if x["k"] == "Decl" for v_ in x["vars"] if isinstance(v_.get("init"), dict) and '"V' in show(v_["init"])]
+        v = [show(v_["init"]) for v_ in vd]
+        okv = bool(vd)
+        vnames = {v_["n"] for v_ in vd}
+        fl = [c for c in walk(w["body"]) if c["k"] == "MCall" and c.get("m") == "write" and c.get("a") and any(y["k"] == "Ref" and y["n"] in vnames for y in walk(c["a"][0]))]
         tv = elem_type(fl[0]) if fl else None
         chk.instance(r_es, "vectors:" + w["q"], sample=dict(name=v[:1], type=tv))
         if not okv or tv != "float":
@@ -136,8 +138,8 @@ def run(chk):
     for n in walk(rd["body"]):
         if n["k"] == "If":
             c = simp(show(n["cond"]))
-            for m in re.finditer(r'arrName (!=|==) "([A-Z]+) *"', c):
-                typ = "int" if "arrType != Opm::EclIO::INTE" in c else None
+            for m in re.finditer(r'\b[A-Za-z_]\w* (!=|==) "([A-Z]+) *"', c):
+                typ = "int" if re.search(r"\b[A-Za-z_]\w* != Opm::EclIO::INTE", c) else None
                 exp.append((m.group(2), typ, m.group(1)))
     names = [e[0] for e in exp]
     chk.instance(r_es, "reader", sample=exp)
@@ -176,89 +178,192 @@ def run(chk):
     if len(lds) != 1:
         raise core.AnalysisBroken("ESmry::loadData(vectList) not found")
     ld1 = lds[0]
-    env = {}
-    asg = {}
-    for n in walk(ld1["body"]):
-        if n["k"] == "Decl":
-            for v in n["vars"]:
-                if v.get("init") is not None:
-                    env[v["n"]] = v["init"]
-        if n["k"] == "Bin" and n["op"] == "=" and strip(n["c"][0]).get("k") == "Ref":
-            asg.setdefault(strip(n["c"][0])["n"], []).append(n["c"][1])
-
     from verif.tree import decast
+    from verif.alpha import Inliner
+    inl = Inliner(ld1)
 
-    def cval(e, depth=0):
-        """integer value of an expression over the layout constants and constant locals, or None"""
+    def cval(e):
+        """integer value of an (expanded) expression over the layout constants, or None"""
         e = strip(decast(e))
         if "ev" in e:
             return int(e["ev"])
         if e["k"] == "Int":
             return int(e["v"])
         if e["k"] == "Ref":
-            if e["n"] in consts:
-                return consts[e["n"]]
-            if e["n"] in env and depth < 4:
-                return cval(env[e["n"]], depth + 1)
-            return None
+            return consts.get(e["n"])
         if e["k"] == "Bin" and e["op"] in ("+", "-", "*", "/", "%"):
-            a, b = cval(e["c"][0], depth), cval(e["c"][1], depth)
+            a, b = cval(e["c"][0]), cval(e["c"][1])
             if a is None or b is None:
                 return None
             return {"+": a + b, "-": a - b, "*": a * b, "/": a // b if b else None, "%": a % b if b else None}[e["op"]]
         return None
-    for need in ("nBlocks", "sizeOfLastBlock", "nLines"):
-        if need not in env:
-            raise core.AnalysisBroken("ESmry::loadData(vectList): local %s vanished" % need)
-    nb, sl = strip(decast(env["nBlocks"])), strip(decast(env["sizeOfLastBlock"]))
-    if not (nb["k"] == "Bin" and nb["op"] == "/" and show(strip(nb["c"][0])) == "paramPos" and sl["k"] == "Bin" and sl["op"] == "%" and show(strip(sl["c"][0])) == "paramPos"):
-        raise core.AnalysisBroken("ESmry::loadData(vectList): block count / remainder are no longer paramPos / D and paramPos % D")
-    D1, D2 = cval(nb["c"][1]), cval(sl["c"][1])
-    stride = cval(asg["blockSize_f"][0]) if asg.get("blockSize_f") else None
-    W, C, NB = consts.get("columnWidthReal"), consts.get("numColumnsReal"), consts.get("MaxNumBlockReal")
-    chk.instance(r_sk, "formatted:divisor", sample=dict(block_divisor=D1, remainder_divisor=D2, stride_chars=stride, width=W, columns=C))
-    if None in (D1, D2, stride, W, C, NB):
-        raise core.AnalysisBroken("ESmry::loadData(vectList): formatted seek constants could not be evaluated")
-    if D1 != D2:
-        chk.violation(r_sk, "formatted:divisor", "block count uses paramPos / %d but the remainder paramPos %% %d" % (D1, D2), ld1["file"], ld1["l"])
-    if D1 % C != 0 or D1 % NB != 0:
-        chk.violation(r_sk, "formatted:regular", "%d values is not a whole number of %d-value blocks and %d-column lines: positions inside it are not uniform" % (D1, NB, C), ld1["file"], ld1["l"])
-    chk.instance(r_sk, "formatted:stride", sample=dict(stride=stride, expected=D1 * W + D1 // C))
-    if stride != D1 * W + D1 // C:
-        chk.violation(r_sk, "formatted:stride", "positions are computed in groups of %d values (paramPos / %d) but one group is taken to occupy %d characters; %d values occupy %d x %d + %d line breaks = %d" % (D1, D1, stride, D1, D1, W, D1 // C, D1 * W + D1 // C), ld1["file"], ld1["l"])
-    inner = [show(decast(x)) for x in asg.get("elementPos", [])]
-    nl = show(decast(env["nLines"]))
-    okf = nl == "(sizeOfLastBlock / Opm::EclIO::numColumnsReal)" and any("(nBlocks * blockSize_f)" in x for x in inner) and any(
-        x.replace(" ", "") == "((stepFilePos+elementPos)+((sizeOfLastBlock*Opm::EclIO::columnWidthReal)+nLines))" for x in inner)
-    chk.instance(r_sk, "formatted:formula", sample=dict(nLines=nl, elementPos=inner))
-    if not okf:
-        chk.violation(r_sk, "formatted:formula", "the formatted element position is no longer step + nBlocks x stride + rest x width + rest / columns: nLines = %s, elementPos = %s" % (nl, inner), ld1["file"], ld1["l"])
-    # unformatted
-    nfb = show(decast(env["nFullBlocks"])) if "nFullBlocks" in env else None
-    ep0 = None
+
+    def one_stmt(b):
+        st = stmt_list(b)
+        return st[0] if len(st) == 1 else None
+
+    def lhs_name(x):
+        x = strip(x)
+        return x["n"] if x.get("k") == "Ref" and x.get("d") == "Var" else None
+    # definitions of multiply-assigned locals that are set once outside the branch (blockSize_f)
+    once = {}
     for n in walk(ld1["body"]):
-        if n["k"] == "Decl":
-            for v in n["vars"]:
-                if v["n"] == "elementPos" and v.get("init") is not None and "nFullBlocks" in show(v["init"]):
-                    ep0 = show(decast(v["init"]))
-    adds = [show(decast(n["c"][1])) for n in walk(ld1["body"]) if n["k"] == "Bin" and n["op"] == "+=" and show(n["c"][0]) == "elementPos"]
-    chk.instance(r_sk, "unformatted", sample=dict(nFullBlocks=nfb, elementPos=ep0, add=adds))
-    if nfb != "(paramPos / (Opm::EclIO::MaxBlockSizeReal / Opm::EclIO::sizeOfReal))" or ep0 != "(((2 * nFullBlocks) + 1) * Opm::EclIO::sizeOfInte)" or \
-            [a.replace(" ", "") for a in adds] != ["((paramPos*Opm::EclIO::sizeOfReal)+stepFilePos)"]:
-        chk.violation(r_sk, "unformatted", "the unformatted element position is no longer (2 x full blocks + 1) x 4 + position x 4 + step with full blocks = position / (4000 / 4): nFullBlocks = %s, elementPos = %s += %s" % (nfb, ep0, adds), ld1["file"], ld1["l"])
+        if n["k"] == "Bin" and n.get("op") == "=" and lhs_name(n["c"][0]):
+            once.setdefault(lhs_name(n["c"][0]), []).append(n["c"][1])
+
+    def seek_target(block):
+        """the argument of the seekg call that ends the straight-line block, with every local of the block (and every
+        single-definition local of the function) replaced by its definition; if (c) x = e; becomes c ? e : x"""
+        env = dict(inl.defs)
+        for nm, vs in once.items():
+            if len(vs) == 1 and nm not in env and not any(x is vs[0] for x in walk(block)):
+                env[nm] = vs[0]
+        for st in stmt_list(block):
+            if st["k"] == "Decl":
+                for v in st["vars"]:
+                    if isinstance(v.get("init"), dict):
+                        env[v["n"]] = inl.expand(v["init"], 0, env)
+                    else:
+                        env.pop(v["n"], None)
+            elif st["k"] == "Bin" and st.get("asg") and lhs_name(st["c"][0]):
+                nm = lhs_name(st["c"][0])
+                rhs = inl.expand(st["c"][1], 0, env)
+                if st["op"] == "=":
+                    env[nm] = rhs
+                elif st["op"] == "+=" and nm in env:
+                    env[nm] = {"k": "Bin", "op": "+", "c": [env[nm], rhs]}
+                else:
+                    raise core.AnalysisBroken("ESmry::loadData(vectList): line %d: assignment form %s not modelled" % (st["l"], st["op"]))
+            elif st["k"] == "If" and not st.get("else") and one_stmt(st["then"]) is not None and one_stmt(st["then"])["k"] == "Bin" and one_stmt(st["then"]).get("op") == "=" and lhs_name(one_stmt(st["then"])["c"][0]) in env:
+                a_ = one_stmt(st["then"])
+                nm = lhs_name(a_["c"][0])
+                env[nm] = {"k": "Cond", "c": [inl.expand(st["cond"], 0, env), inl.expand(a_["c"][1], 0, env), env[nm]]}
+            else:
+                m_, o_ = meth(st)
+                if m_ == "seekg" and st.get("a"):
+                    return inl.expand(st["a"][0], 0, env)
+        return None
+
+    def terms(e):
+        e = strip(e)
+        if e["k"] == "Bin" and e.get("op") == "+" and not e.get("asg"):
+            return terms(e["c"][0]) + terms(e["c"][1])
+        return [e]
+
+    def binop(e, op):
+        e = strip(e)
+        return (strip(e["c"][0]), strip(e["c"][1])) if e["k"] == "Bin" and e.get("op") == op and not e.get("asg") else None
+    # the two branches: the if whose branches both end in a seekg
+    branches = None
+    for n in walk(ld1["body"]):
+        if n["k"] == "If" and n.get("else") is not None:
+            t_, e_ = seek_target(n["then"]), seek_target(n["else"])
+            if t_ is not None and e_ is not None:
+                branches = (n, t_, e_)
+    if branches is None:
+        raise core.AnalysisBroken("ESmry::loadData(vectList): the formatted/unformatted pair of seekg blocks was not found")
+    iff, fmt_t, unf_t = branches
+    W, C, NB = consts.get("columnWidthReal"), consts.get("numColumnsReal"), consts.get("MaxNumBlockReal")
+    SI, SR, MB = consts.get("sizeOfInte"), consts.get("sizeOfReal"), consts.get("MaxBlockSizeReal")
+    if None in (W, C, NB, SI, SR, MB):
+        raise core.AnalysisBroken("ESmry::loadData(vectList): layout constants could not be read from EclIOdata.hpp")
+    # ---- formatted: step + [blocks > 0 ?] blocks * stride + rest * width + rest / columns
+    ft = terms(fmt_t)
+    rest_w = [(t, x) for t in ft for x in [binop(t, "*")] if x and any(binop(y, "%") for y in x)]
+    P = D2 = Wc = None
+    if len(rest_w) == 1:
+        a_, b_ = rest_w[0][1]
+        r_, w_ = (a_, b_) if binop(a_, "%") else (b_, a_)
+        P, D2, Wc = binop(r_, "%")[0], cval(binop(r_, "%")[1]), cval(w_)
+    rest_l = [(t, x) for t in ft for x in [binop(t, "/")] if x and binop(x[0], "%")]
+    Cc = D2b = None
+    if len(rest_l) == 1 and P is not None:
+        r2 = binop(rest_l[0][1][0], "%")
+        if show(r2[0]) == show(P):
+            D2b, Cc = cval(r2[1]), cval(rest_l[0][1][1])
+    blk = []
+    for t in ft:
+        x = t
+        if x["k"] == "Cond":
+            c_, a_, z_ = [strip(y) for y in x["c"]]
+            if cval(z_) == 0 and binop(c_, ">") and cval(binop(c_, ">")[1]) == 0:
+                x = a_
+            else:
+                continue
+        m = binop(x, "*")
+        if m and P is not None:
+            for nbx, stx in (m, m[::-1]):
+                d = binop(nbx, "/")
+                if d and show(d[0]) == show(P) and cval(d[1]) is not None and cval(stx) is not None:
+                    blk.append((t, cval(d[1]), cval(stx)))
+    used = [id(x[0]) for x in rest_w + rest_l + blk]
+    step_f = [t for t in ft if id(t) not in used]
+    D1, stride = (blk[0][1], blk[0][2]) if len(blk) == 1 else (None, None)
+    chk.instance(r_sk, "formatted:divisor", sample=dict(block_divisor=D1, remainder_divisor=D2, stride_chars=stride, width=Wc, columns=Cc))
+    chk.instance(r_sk, "formatted:formula", sample=dict(target=inl.render(fmt_t)[:300], terms=len(ft)))
+    if None in (P, D1, D2, D2b, Wc, Cc, stride) or len(ft) != 4 or len(step_f) != 1 or any(show(P) in show(x) for x in step_f):
+        chk.violation(r_sk, "formatted:formula", "the formatted element position is no longer step + blocks x stride + rest x width + rest / columns (with blocks = position / D and rest = position %% D): the seek target is %s" % inl.render(fmt_t)[:400], ld1["file"], iff["l"])
+    else:
+        if D1 != D2 or D2 != D2b:
+            chk.violation(r_sk, "formatted:divisor", "block count uses position / %d but the remainder position %% %d (line breaks: %% %d)" % (D1, D2, D2b), ld1["file"], iff["l"])
+        if Wc != W or Cc != C:
+            chk.violation(r_sk, "formatted:formula", "a value is taken to be %d characters wide with %d per line; the REAL layout is %d wide, %d per line" % (Wc, Cc, W, C), ld1["file"], iff["l"])
+        if D1 % C != 0 or D1 % NB != 0:
+            chk.violation(r_sk, "formatted:regular", "%d values is not a whole number of %d-value blocks and %d-column lines: positions inside it are not uniform" % (D1, NB, C), ld1["file"], iff["l"])
+        chk.instance(r_sk, "formatted:stride", sample=dict(stride=stride, expected=D1 * W + D1 // C))
+        if stride != D1 * W + D1 // C:
+            chk.violation(r_sk, "formatted:stride", "positions are computed in groups of %d values (position / %d) but one group is taken to occupy %d characters; %d values occupy %d x %d + %d line breaks = %d" % (D1, D1, stride, D1, D1, W, D1 // C, D1 * W + D1 // C), ld1["file"], iff["l"])
+    # ---- unformatted: (2 x full blocks + 1) x 4 + position x 4 + step, full blocks = position / (4000 / 4)
+    ut = terms(unf_t)
+    okh = okp = False
+    step_u = []
+    for t in ut:
+        m = binop(t, "*")
+        hit = False
+        if m and P is not None:
+            for x, y in (m, m[::-1]):
+                if show(x) == show(P) and cval(y) == SR:
+                    okp = hit = True
+                hs = terms(x)
+                if cval(y) == SI and len(hs) == 2 and sorted(cval(h) is not None and cval(h) or 0 for h in hs)[1] == 1:
+                    two = [binop(h, "*") for h in hs if binop(h, "*")]
+                    for tw in two:
+                        for k2, nf in (tw, tw[::-1]):
+                            d = binop(nf, "/")
+                            if cval(k2) == 2 and d and show(d[0]) == show(P) and cval(d[1]) == MB // SR:
+                                okh = hit = True
+        if not hit:
+            step_u.append(t)
+    chk.instance(r_sk, "unformatted", sample=dict(target=inl.render(unf_t)[:300], header_term=okh, position_term=okp))
+    if not (okh and okp) or len(ut) != 3 or len(step_u) != 1 or (step_f and show(step_u[0]) != show(step_f[0])):
+        chk.violation(r_sk, "unformatted", "the unformatted element position is no longer (2 x full blocks + 1) x %d + position x %d + step with full blocks = position / (%d / %d): the seek target is %s" % (SI, SR, MB, SR, inl.render(unf_t)[:400]), ld1["file"], iff["l"])
 
     # ---- C10.nums
     r_nu = chk.rule("C10.nums", "combineSummaryNumbers and splitSummaryNumber are mutually inverse encodings (n1 + 2^15 (n2 + 10))", floor=2)
     cb = fx.fn1("Opm::EclIO::combineSummaryNumbers")
     sp = fx.fn1("Opm::EclIO::splitSummaryNumber")
-    rc = show([n for n in walk(cb["body"]) if n["k"] == "Return"][0]["e"])
-    env = {v["n"]: show(v.get("init")) for n in walk(sp["body"]) if n["k"] == "Decl" for v in n["vars"]}
+    from verif.alpha import Inliner as _Inl
+    icb, isp = _Inl(cb), _Inl(sp)
+    rets_c = [n for n in walk(cb["body"]) if n["k"] == "Return" and n.get("e") is not None]
+    rets_s = [n for n in walk(sp["body"]) if n["k"] == "Return" and n.get("e") is not None]
+    if len(rets_c) != 1 or len(rets_s) != 1 or len(cb["params"]) != 2 or len(sp["params"]) != 1:
+        raise core.AnalysisBroken("combineSummaryNumbers / splitSummaryNumber: unexpected shape (returns %d/%d)" % (len(rets_c), len(rets_s)))
+    rc = icb.render(rets_c[0]["e"], roles={cb["params"][0]["n"]: "a", cb["params"][1]["n"]: "b"})
+    parts = [x for x in walk(isp.expand(rets_s[0]["e"])) if x["k"] in ("InitList", "Ctor", "Call")]
+    elems = None
+    for x in parts:
+        kids = [y for y in (x.get("c") or x.get("a") or []) if isinstance(y, dict) and y.get("k") != "DefArg"]
+        if len(kids) == 2:
+            elems = [isp.render(y, roles={sp["params"][0]["n"]: "n"}) for y in kids]
+            break
     chk.instance(r_nu, "combine", sample=rc)
-    chk.instance(r_nu, "split", sample=env)
-    if rc != "(n1 + ((1 << 15) * (n2 + 10)))":
-        chk.violation(r_nu, "combine", "combineSummaryNumbers computes %s" % rc, cb["file"], cb["l"])
-    if env.get("n1") != "(n % (1 << 15))" or env.get("n2") != "((n / (1 << 15)) - 10)":
-        chk.violation(r_nu, "split", "splitSummaryNumber computes n1 = %s, n2 = %s; the inverse of the combination is n %% 2^15 and n / 2^15 - 10" % (env.get("n1"), env.get("n2")), sp["file"], sp["l"])
+    chk.instance(r_nu, "split", sample=elems)
+    if rc.replace(" ", "") not in ("($a+((1<<15)*($b+10)))", "($a+(($b+10)*(1<<15)))", "(((1<<15)*($b+10))+$a)"):
+        chk.violation(r_nu, "combine", "combineSummaryNumbers(a, b) computes %s; the encoding is a + 2^15 (b + 10)" % rc, cb["file"], cb["l"])
+    if elems is None:
+        raise core.AnalysisBroken("splitSummaryNumber: the returned pair was not recognised")
+    if [e_.replace(" ", "") for e_ in elems] != ["($n%(1<<15))", "(($n/(1<<15))-10)"]:
+        chk.violation(r_nu, "split", "splitSummaryNumber(n) returns {%s, %s}; the inverse of the combination is {n %% 2^15, n / 2^15 - 10}" % tuple(elems), sp["file"], sp["l"])
     # ---- C10.lockstep: a counter that shadows the size of a member container lives as long as the container keeps growing
     r_ls = chk.rule("C10.lockstep", "in the summary readers, a local counter incremented once per iteration of the loop that appends once per iteration to a member container (so that it is an index into that container) is not declared inside an enclosing loop, where it would restart while the container keeps growing (base-run chains, multiple files)", floor=2)
 
